@@ -40,11 +40,20 @@ type c33Case struct {
 	// OtherFirst: another live link request for the same target peer, with a different source peer, is already
 	// watched by the controller when the tested request arrives
 	OtherFirst bool `json:"other_first,omitempty"`
+	// Pre lists the links the request already has when the controller first sees it (the bus replays them to the
+	// controller's watcher while it attaches)
+	Pre []int `json:"pre,omitempty"`
 }
 
 func genC33(t *rapid.T) c33Case {
 	c := c33Case{Concurrent: rapid.IntRange(0, 5).Draw(t, "conc") == 0, OtherFirst: rapid.IntRange(0, 2).Draw(t, "otherfirst") == 0}
-	n := rapid.IntRange(1, 10).Draw(t, "n")
+	if rapid.IntRange(0, 2).Draw(t, "haspre") == 0 {
+		c.Pre = rapid.SliceOfNDistinct(rapid.IntRange(0, 2), 1, 3, rapid.ID[int]).Draw(t, "pre")
+	}
+	n := rapid.IntRange(0, 10).Draw(t, "n")
+	if len(c.Pre) == 0 && n == 0 {
+		n = 1
+	}
 	for i := 0; i < n; i++ {
 		c.Ops = append(c.Ops, c33Op{
 			Op:     rapid.SampledFrom([]string{"add", "add", "remove", "remove", "dispose"}).Draw(t, "op"),
@@ -79,23 +88,38 @@ func checkC33(c c33Case) (o vstat.Outcome) {
 		o.Classes = append(o.Classes, "second-request-for-the-same-target")
 	}
 	inst := fakes.NewInstance(link.NewEstablishLinkWithPeer("", gen.PeerID(1)))
-	if _, err := ctrl.HandleDirective(context.Background(), inst); err != nil {
-		o.V = vstat.Viol("handle-directive-error", "%v", err)
-		return
-	}
-	refs := inst.LiveRefs()
-	if len(refs) != 1 || !refs[0].Weak || refs[0].Handler == nil {
-		o.V = vstat.Viol("no-weak-watch", "hold-open controller did not attach exactly one weak reference with a handler (got %d)", len(refs))
-		return
-	}
-	h := refs[0].Handler
-	baseline := runtime.NumGoroutine()
 	vals := map[int]directive.AttachedValue{}
 	for i := 0; i < 3; i++ {
 		ml := &fakes.MountedLink{UUID: uint64(100 + i), Local: gen.PeerID(0), Remote: gen.PeerID(1)}
 		vals[i] = directive.NewAttachedValue(uint32(i+1), link.MountedLink(ml))
 	}
+	for _, l := range c.Pre {
+		inst.Values = append(inst.Values, vals[l])
+	}
+	baseline := runtime.NumGoroutine()
+	if _, err := ctrl.HandleDirective(context.Background(), inst); err != nil {
+		o.V = vstat.Viol("handle-directive-error", "%v", err)
+		return
+	}
+	var h directive.ReferenceHandler
+	nWeak := 0
+	for _, r := range inst.LiveRefs() {
+		if r.Weak && r.Handler != nil {
+			h = r.Handler
+			nWeak++
+		}
+	}
+	if nWeak != 1 {
+		o.V = vstat.Viol("no-weak-watch", "hold-open controller did not attach exactly one weak reference with a handler (got %d)", nWeak)
+		return
+	}
 	live := map[int]bool{}
+	for _, l := range c.Pre {
+		live[l] = true
+	}
+	if len(c.Pre) > 0 {
+		o.Classes = append(o.Classes, "links-present-before-the-controller-attached")
+	}
 	disposed := false
 	unsettledAddRemove, twoAdds := false, false
 	pendingAdd := false
@@ -146,9 +170,8 @@ func checkC33(c c33Case) (o vstat.Outcome) {
 		final := map[int]bool{}
 		for l, ops := range per {
 			wg.Add(1)
-			go func(l int, ops []c33Op) {
+			go func(l int, ops []c33Op, on bool) {
 				defer wg.Done()
-				on := false
 				for _, op := range ops {
 					if op.Op == "add" && !on {
 						on = true
@@ -161,12 +184,14 @@ func checkC33(c c33Case) (o vstat.Outcome) {
 				mu.Lock()
 				final[l] = on
 				mu.Unlock()
-			}(l, ops)
+			}(l, ops, live[l])
 		}
 		wg.Wait()
 		for l, on := range final {
 			if on {
 				live[l] = true
+			} else {
+				delete(live, l)
 			}
 		}
 		o.Classes = append(o.Classes, "concurrent")
@@ -187,7 +212,7 @@ func checkC33(c c33Case) (o vstat.Outcome) {
 		barrier(baseline)
 		strong = inst.StrongRefs()
 	}
-	o.NonTrivial = unsettledAddRemove || twoAdds
+	o.NonTrivial = unsettledAddRemove || twoAdds || len(c.Pre) > 0
 	if unsettledAddRemove {
 		o.Classes = append(o.Classes, "remove-without-settling-after-add")
 	}
@@ -216,7 +241,7 @@ var specC33 = vstat.Spec[c33Case]{
 	Property: "C33",
 	Rule: "the real hold-open controller driven through HandleDirective with a fake directive instance that counts outstanding strong references; histories of 1-10 value-added / value-removed / instance-disposed callbacks over 3 link values, " +
 		"each step optionally followed by a barrier (goroutine count back to baseline) so both orders of every event vs. the asynchronous acquisition are produced; free-running variant with one goroutine per link; " +
-		"oracle at quiescence: links present => exactly one strong reference, no links => none; non-trivial = a removal delivered before the acquisition of a preceding add settled, or two adds before any acquisition",
+		"oracle at quiescence: links present => exactly one strong reference, no links => none; optionally 1-3 links are already on the request when the controller first sees it (replayed while it attaches, as the bus does); non-trivial = a removal delivered before the acquisition of a preceding add settled, two adds before any acquisition, or links present before attachment",
 	Assumptions: []string{"runtime.NumGoroutine() returning to its baseline means the handler's spawned goroutines have finished; a leak verdict is re-checked after a further 20 ms"},
 	Gen:         genC33,
 	Check:       checkC33,
